@@ -39,14 +39,21 @@ func (t tasks) Swap(a, b int) {
 func (t tasks) Remove(task *taskInfo) tasks {
 	task.mtx.Lock()
 	defer task.mtx.Unlock()
-	if task.Index+1 > t.Size() {
+	// 各个高度的下载协程共享同一个底层数组和同一批taskInfo: 必须拷贝后再删除,
+	// 并且优先按节点本身查找位置: task.Index记录的可能是其他协程列表中的位置
+	index := task.Index
+	for i, x := range t {
+		if x == task {
+			index = i
+			break
+		}
+	}
+	if index < 0 || index+1 > t.Size() {
 		return t
 	}
-
-	// 各个高度的下载协程共享同一个底层数组, 必须拷贝后再删除, 否则会改写其他协程看到的节点列表
 	nt := make(tasks, 0, len(t)-1)
-	nt = append(nt, t[:task.Index]...)
-	nt = append(nt, t[task.Index+1:]...)
+	nt = append(nt, t[:index]...)
+	nt = append(nt, t[index+1:]...)
 	return nt
 }
 
